@@ -8,7 +8,9 @@ CONSTANT Count
 VARIABLE n
 \* "command-doubled": a plain command that ends in a doubled letter, typed while unsolicited device output is still unread, with the
 \* echo trickling in (the echo wait must not be satisfied one character early)
-Kinds == << "interactive", "interactive", "command", "command-eager", "escalate", "escalate", "interactive-network", "command-doubled" >>
+\* "escalate-noauth": with a secondary secret configured, a transition that needs no password (configure terminal) is still a plain
+\* command: its return waits for its echo and the secret is not part of it
+Kinds == << "interactive", "interactive", "command", "command-eager", "escalate", "escalate", "interactive-network", "command-doubled", "escalate-noauth" >>
 EscOutcomes == << "asks", "grants", "refuses", "rejects" >>
 EvShapes == << [hidden |-> FALSE, resp |-> TRUE], [hidden |-> FALSE, resp |-> FALSE], [hidden |-> TRUE, resp |-> TRUE], [hidden |-> TRUE, resp |-> FALSE] >>
 Scn(m) == LET kind == Pick(Kinds, m, 1)
@@ -21,6 +23,8 @@ Scn(m) == LET kind == Pick(Kinds, m, 1)
               delayus |-> 300 + 400 * Below(6, m, 5),
               \* before its question the device prints a listing that is longer than the channel's prompt search depth
               long |-> Below(3, m, 7) = 0,
+              \* the device redraws its prompt after an asynchronous log line: a prompt-looking line is still unread when the dialogue starts
+              stale |-> Below(3, m, 8) = 0,
               \* used by C11 only: the write carrying the secret fails / the connection breaks right after the secret was sent
               fault |-> Pick(<<"", "werr-on-secret", "rerr-after-secret">>, m, 6)]
 Init == n = 0
